@@ -472,6 +472,9 @@ def _round(number, num_digits, _rounding=decimal.ROUND_HALF_UP):
     number = decimal.Decimal(str(number))
     with decimal.localcontext() as dc:
         dc.rounding = _rounding
+        # The context needs room for every digit of the result: with the
+        # default 28 digits ROUND(1E+20, 10) raised InvalidOperation.
+        dc.prec = max(dc.prec, number.adjusted() + int(num_digits) + 2)
         ans = round(number, int(num_digits))
     return float(ans)
 
